@@ -280,3 +280,13 @@ def wf_type(fcp: "ref:FcpV2", t: "ref:Type") -> "bool":
 def wf_struct(fcp: "ref:FcpV2", name: "str") -> "bool":
     return has_struct(fcp, name) and forall(0, len(sorted_fields(struct_of(fcp, name))),
                                             lambda k: wf_type(fcp, sorted_fields(struct_of(fcp, name))[k].type))
+
+
+@pure
+def has_struct_in(ss: "seq[ref:Struct]", name: "str") -> "bool":
+    return first_struct_from(ss, name, 0) >= 0
+
+
+@pure
+def has_enum_in(es: "seq[ref:Enum]", name: "str") -> "bool":
+    return first_enum_from(es, name, 0) >= 0
